@@ -346,7 +346,7 @@ func FamilyWorld(t *rapid.T, o Opts) World {
 func CycleWorld(t *rapid.T, o Opts) World {
 	fam := []int{6, 6, 7, 7, 2, 5, 3}[rapid.IntRange(0, 6).Draw(t, "cycleFamily")]
 	w := familyWorld(t, o, fam)
-	if len(w.Model.Conds) > 0 || chance(t, "cycleRandomTuples", 25) {
+	if chance(t, "cycleRandomTuples", 25) {
 		return w
 	}
 	// dense links between the few groups, sparse direct grants for one subject:
@@ -356,7 +356,21 @@ func CycleWorld(t *rapid.T, o Opts) World {
 	tn := CycleType(w)
 	link := func(label string, pct int, obj, rel, user string) {
 		if chance(t, label, pct) && user != obj+"#"+rel { // a tuple relating a userset to itself is implicit and cannot be written
-			ts = append(ts, m.Tuple{Object: obj, Relation: rel, User: user})
+			tu := m.Tuple{Object: obj, Relation: rel, User: user}
+			// when the model offers a conditioned alternative for this kind of user, some of the tuples take it
+			// (with a stored context that makes the condition true, false, or leaves a parameter to the request)
+			ot, _ := m.SplitObject(obj)
+			if r := w.Model.Relation(ot, rel); r != nil {
+				for _, re := range r.Restr {
+					if re.Cond != "" && re.Type == m.UserType(user) && re.Wildcard == (m.UserKind(user) == "wildcard") && (re.Rel != "") == (m.UserKind(user) == "userset") && chance(t, label+"Cond", 40) {
+						if c := w.Model.Cond(re.Cond); c != nil {
+							tu.Cond, tu.Ctx = re.Cond, TupleContext(t, c)
+						}
+						break
+					}
+				}
+			}
+			ts = append(ts, tu)
 		}
 	}
 	for i := 0; i < n; i++ {
@@ -484,7 +498,7 @@ func familyWorld(t *rapid.T, o Opts, family int) World {
 				{Name: "r0", Rewrite: &m.Rewrite{Kind: m.TTU, Tupleset: "parent", Rel: "r0"}}}})
 	}
 	mo := &m.Model{Types: types}
-	if o.Conditions && chance(t, "famCond", 35) {
+	if o.Conditions && (o.ForceLinkConds || chance(t, "famCond", 35)) {
 		c := condTemplates()[rapid.IntRange(0, 2).Draw(t, "famCondIdx")]
 		mo.Conds = []m.Condition{c}
 		// attach the condition to one user restriction as an extra alternative
@@ -493,6 +507,10 @@ func familyWorld(t *rapid.T, o Opts, family int) World {
 				r := &mo.Types[ti].Relations[ri]
 				if len(r.Restr) > 0 && r.Restr[0].Type == "user" && !r.Restr[0].Wildcard && chance(t, "famCondHere", 50) {
 					r.Restr = append(r.Restr, m.Restriction{Type: "user", Cond: c.Name})
+				}
+				// ... or to a link (parent object / member userset) restriction: conditioned links
+				if len(r.Restr) > 0 && r.Restr[0].Type != "user" && r.Restr[0].Cond == "" && (o.ForceLinkConds || chance(t, "famCondLink", 35)) {
+					r.Restr = append(r.Restr, m.Restriction{Type: r.Restr[0].Type, Rel: r.Restr[0].Rel, Cond: c.Name})
 				}
 			}
 		}
